@@ -185,3 +185,72 @@ def magic_plain(n, seed, runs=False):
         if out[i] == out[i - 1] == out[i - 2] == out[i - 3]:
             out[i] = al[(al.index(out[i]) + 1) % len(al)]
     return bytes(out)
+
+
+# ------------------------------------------------------------------ planting through the symbol map
+#
+# When all 16 byte ranges are in use, the block header carries 0xFFFF followed by the 256 "byte used" bits
+# verbatim.  Choosing the set of byte values that occur in a plaintext therefore writes (almost) any 256-bit
+# string into the compressed stream of ANY conforming encoder -- e.g. the 48-bit block-header pattern followed
+# by 208 bits of a complete, decodable false block.
+
+MAGIC_BITS = format(0x314159265359, "048b")
+
+
+def _bijective(n):
+    """run length -> RUNA(1)/RUNB(2) digits, least significant first"""
+    out = []
+    while n > 0:
+        d = 1 if n & 1 else 2
+        out.append(d)
+        n = (n - d) >> 1
+    return out
+
+
+def false_block(kind, arg=0, seed=0):
+    """Bit string (<= 208 bits) that follows the planted magic."""
+    r = random.Random(seed)
+    if kind == "junk":
+        return "".join(r.choice("01") for _ in range(arg or 64))
+    crc = format(r.getrandbits(32) | 0x00010001, "032b")
+    if kind == "hdr_error":          # well formed up to the tables, both tables incomplete
+        return (crc + "0" + format(0x010101, "024b") + format(1, "016b") + format(1, "016b") + "010" +
+                format(1, "015b") + "0" + "00010" + "000" + "00010" + "000")
+    if kind == "valid_run":          # a VALID block: one run of `arg` bytes 0xFF after the BWT stage
+        n = arg - arg % 5 or 5
+        idx = 0x010101 if n > 0x010101 else 0x000201 if n > 0x000201 else 0x000021 if n > 0x21 else 1
+        b = (crc + "0" + format(idx, "024b") + format(1, "016b") + format(1, "016b") + "010" +
+             format(1, "015b") + "0" + "00001" + "0" + "100" + "0" + "00001" + "0" + "100" + "0")
+        for d in _bijective(n):
+            b += "0" if d == 1 else "10"
+        return b + "11"
+    raise ValueError(kind)
+
+
+def planted_plain(payload_bits, size, seed):
+    """Plaintext (no run of 4 equal bytes) whose set of used byte values spells MAGIC + payload_bits in the
+    256-bit symbol map; every ~600-byte window contains the whole byte set."""
+    bits = MAGIC_BITS + payload_bits
+    if len(bits) > 256:
+        raise ValueError("payload too long")
+    bits += "1" * (256 - len(bits))
+    for i in range(0, 256, 16):
+        if "1" not in bits[i:i + 16]:
+            bits = bits[:i + 15] + "1" + bits[i + 16:]      # keep every range in use (changes one payload bit)
+    used = bytes(i for i, c in enumerate(bits) if c == "1")
+    r = random.Random(seed)
+    out = bytearray()
+    while len(out) < max(size, len(used)):
+        chunk = bytearray(used)
+        r.shuffle(chunk)
+        out += chunk
+        out += bytes(r.choices(used, k=r.randrange(0, 400)))
+    out = out[:max(size, len(used))]
+    if size < len(used):
+        out = bytearray(used)
+    # make sure the tail window still has the full set, and break runs of >= 4
+    out[-len(used):] = used
+    for i in range(3, len(out)):
+        if out[i] == out[i - 1] == out[i - 2] == out[i - 3]:
+            out[i] = used[(used.index(out[i]) + 1) % len(used)]
+    return bytes(out), bits
